@@ -316,7 +316,7 @@ def run(plan: dict) -> dict:
 # ---------------------------------------------------------------------------
 
 FAULT_REGIONS = ["_lower_and_call", "wrapped", "lower_equation_with_plugin", "lower_jaxpr_with_plugins", "_activate_full_plugin_worlds_for_body", "_build_and_finalize_ir_model", "_trace_to_jaxpr", "apply_monkey_patches", "_optimize_graph_with_failure_policy", "to_onnx"]
-FX = ["flat", "flat_f64", "net", "outer", "fn_boundary", "fn_kw", "eqx_block", "plain", "ublock_pair", "two_same", "two_diff", "kwblock", "resconv_nchw", "resconv", "chanattn_nchw", "transpose_forest", "reshape_chain", "cf_cond", "cf_fori", "cf_while", "cf_scan", "cf_nested", "fn_boundary_f64", "autoflags"]
+FX = ["flat", "flat_f64", "net", "outer", "fn_boundary", "fn_kw", "eqx_block", "plain", "ublock_pair", "two_same", "two_diff", "kwblock", "resconv_nchw", "resconv", "chanattn_nchw", "transpose_forest", "reshape_chain", "cf_cond", "cf_fori", "cf_while", "cf_scan", "cf_nested", "fn_boundary_f64", "autoflags", "gather_const_idx", "dead_cast", "f16_cast_chain", "named_io", "implicit_fn_a", "implicit_fn_b"]
 _BIAS = ("nchw", "transpose", "conv", "resblock", "attention", "onnx_functions", "reshape", "vit", "cnn")
 
 
